@@ -379,3 +379,9 @@ func TestVerif_C03(t *testing.T) {
 	s.EnableSentinel()
 	kit.Run(s, "untrusted_program_bytes", kit.N{Quick: 40000, Thorough: 1000000}, c03Gen, c03Check)
 }
+
+// FuzzVerif_C03 drives the same generator and oracle with Go's coverage-guided
+// fuzzer (thorough tier; see harness/kit/fuzz.go).
+func FuzzVerif_C03(f *testing.F) {
+	kit.Fuzz(f, "C03", "untrusted_program_bytes", c03Gen, c03Check)
+}
